@@ -1007,6 +1007,20 @@ def evaluate(t):
 # ---------------------------------------------------------------------------
 PRIMES_UP = [2, 3, 5, 7, 11, 13, 17, 19]
 PRIMES_DOWN = [251, 83, 29, 11, 5, 3, 2, 7]
+# Supplementary assignments (first three leaves chosen by a one-off greedy
+# search so that, together with the two prime assignments, the two groupings
+# of `a op1 b op2 c` differ in value for every ordered pair of binary operators
+# for which they can differ at all: 314 of 324; the other 10 are algebraic
+# identities such as (a+b)-c == a+(b-c)).  Zero and repeated values are needed
+# for && || == and the shifts; the remaining leaves are primes again.
+AUDIT_EXTRA = [
+    [0, 12, 3, 7, 5, 11, 13, 17],
+    [29, 3, 1, 7, 5, 11, 13, 17],
+    [1, 2, 2, 7, 5, 11, 13, 17],
+    [0, 0, 2, 7, 5, 11, 13, 17],
+    [2, 0, 0, 7, 5, 11, 13, 17],
+    [1, 3, 3, 7, 5, 11, 13, 17],
+]
 AUDIT_PRELUDE = "typedef int T ;\n"
 
 
